@@ -412,3 +412,12 @@ N.append({'id': 'cxx-namespace-conflict-named', 'file': 'src/treespec/richcompar
     if (namespaces_conflict) [[likely]] {
         return false;
     }""")]})
+
+# the subject of every kind switch is given a name first:
+# `{ const auto sk = node.kind; switch (sk) { ... } }` (19 switches).  The first run raised alarms
+# in M1, D2, K3, P1, T4 (the arm descriptors looked for `<subject>.kind` tests inside the arms and
+# for the statements before the switch in the same block).  The alias resolution of the IR now
+# covers const locals of type PyTreeKind and switch conditions, with a use-site criterion for
+# "nothing it reads has been assigned in between", and the prelude of a switch is collected
+# through plain nested blocks.
+N.append({'id': 'cxx-switch-subject-named-first', 'generator': 'alias-switch', 'file': None, 'edits': []})
